@@ -199,10 +199,12 @@ def floor_prop(pid, modules, prop_files, tagsd, nontriv_prefix, extra_rule, runn
 
 
 PROPS['C02'] = floor_prop(
-    'C02', ['SimProc.Props.C02'], ['SimProc/Props/C02.lean'],
+    'C02', ['SimProc.Props.C02', 'SimProc.Props.C02W'], ['SimProc/Props/C02.lean', 'SimProc/Props/C02W.lean'],
     {'d': _c.fields('part', 'out', 'buf', 'inprog', 'prod', 'max', 'recv', 'lvl'), 'p': _c.fields('kids'),
      'rec': _c.only(('device_failure', 'supplied_new_part', 'received_part')), 'res': _c.only(('shut',))},
-    ('rec device_failure', 'rec received_part'), 'non-trivial = at least one part was received; distinct by scenario text')
+    ('rec device_failure', 'rec received_part'), 'non-trivial = at least one part was received; distinct by scenario text',
+    # sys / floorl: devices created and wired while the simulation runs (C02W covers them)
+    families=[('floor', 100, 2000), ('floorc', 50, 1000), ('floors', 150, 3000), ('sys', 60, 1000), ('floorl', 40, 800)])
 PROPS['C03'] = floor_prop(
     'C03', ['SimProc.Props.C03', 'SimProc.Props.C03W'], ['SimProc/Props/C03.lean', 'SimProc/Props/C03W.lean'],
     {'ev': None, 'now': None, 'ran': None, 'd': _c.fields('part', 'out', 'buf', 'wds', 'blk', 'down', 'wres', 'lvl')},
